@@ -92,6 +92,7 @@ class CFG:
         self._ids = itertools.count()
         self.nodes = []
         self.loop_stack = []      # (head, break_list)
+        self.inline_stack = []    # exits of expanded helper bodies
         self.try_stack = []       # list of handler-node lists
         self.handler_ctx = []     # ExceptHandler ast currently being built inside
         self.entry = self.new('entry', None, '<entry>')
@@ -187,6 +188,18 @@ class CFG:
             self.loop_stack.pop()
             self.link(ends, head)
             return self.block(s.orelse, [(head, False)]) + brk
+        if type(s).__name__ == 'InlineBlock':
+            # expanded helper body: `InlineExit` jumps to the end of the block
+            ex = []
+            self.inline_stack.append(ex)
+            ends = self.block(s.body, preds)
+            self.inline_stack.pop()
+            return ends + ex
+        if type(s).__name__ == 'InlineExit':
+            n = self.new('stmt', None, 'inline-exit', s)
+            self.link(preds, n)
+            self.inline_stack[-1].append((n, None))
+            return []
         if isinstance(s, ast.Break):
             n = self.new('stmt', s, 'break')
             self.link(preds, n)
